@@ -196,7 +196,8 @@ def build_network(case):
     from gcmpy.names.network_names import NetworkNames as NN
     net = Network()
     G = nx.Graph()
-    for v, row in case["jd"]:
+    order = {v: k for k, v in enumerate(case.get("node_order") or [])}
+    for v, row in sorted(case["jd"], key=lambda t: order.get(t[0], t[0])):
         G.add_node(v)
         G.nodes[v][NN.JOINT_DEGREE] = list(row) if case.get("jd_type") == "list" else tuple(row)
     for a, b, t, m in case["edges"]:
@@ -240,6 +241,9 @@ class MCMCProp(Prop):
         c["max_draws"] = 4000 if tier == "quick" else 20000
         if i % 5 == 1:
             c["jd_type"] = "list"          # annotations as lists (hand-built / loaded networks) instead of tuples
+        if i % 2 == 1:
+            c["node_order"] = [v for v, _ in c["jd"]]
+            rng.shuffle(c["node_order"])   # a vertex's id is not its position in G.nodes()
         return c
 
     def gen_dense(self, rng, i, tier):
@@ -255,6 +259,9 @@ class MCMCProp(Prop):
         c["limits"] = [rng.randint(3, 20), rng.randint(5, 25)]
         c["grid"] = rng.choice([4, 10, 50])
         c["max_draws"] = 4000
+        if i % 2 == 1:
+            c["node_order"] = [v for v, _ in c["jd"]]
+            rng.shuffle(c["node_order"])
         return c
 
     # ------------------------------------------------------------------ instrumented run
